@@ -44,6 +44,15 @@ Doublet == [surf |-> << S(-400, INF, 0, 0, "std", "air", "air", FALSE, FALSE),
                         S(48, -320, -8, 0, "std", "n2", "air", FALSE, FALSE),
                         S(248, INF, 0, 0, "std", "air", "air", FALSE, FALSE) >>,
             lastT |-> 0, wl |-> << [v |-> 4, primary |-> FALSE], [v |-> 5, primary |-> TRUE] >>]
+\* two air-spaced elements, object at infinity, stop on the third refracting surface, conic last
+\* refracting surface (6 surfaces: edits in the second element leave the first untouched)
+AirSpaced == [surf |-> << S(-INF, INF, 0, 0, "std", "air", "air", FALSE, FALSE),
+                          S(0, 160, 0, 0, "std", "air", "n15", FALSE, FALSE),
+                          S(8, -320, 0, 0, "std", "n15", "air", FALSE, FALSE),
+                          S(48, -320, 0, 0, "std", "air", "n2", TRUE, FALSE),
+                          S(56, 160, -8, 0, "std", "n2", "air", FALSE, FALSE),
+                          S(96, INF, 0, 0, "std", "air", "air", FALSE, FALSE) >>,
+              lastT |-> 0, wl |-> << [v |-> 5, primary |-> TRUE] >>]
 MCMedia3 == {"air", "n15", "n2"}
 CONSTANT Depth
 LevelBound == TLCGet("level") <= Depth
